@@ -13,3 +13,6 @@ import SigHook.Model.Default
 import SigHook.Props.C16
 import SigHook.Model.Origin
 import SigHook.Props.C17
+import SigHook.Model.HalfLock
+import SigHook.Lemmas.HalfLock
+import SigHook.Props.C01
